@@ -264,15 +264,20 @@ def fix_ptm(molecule):
     '''
     ptm_atoms = find_ptm_atoms(molecule)
 
+    def residue_of(idx):
+        # Residue numbers are not unique: chains and insertion codes.
+        node = molecule.nodes[idx]
+        return (node.get('chain') or '', node['resid'], node.get('insertion_code') or '')
+
     def key_func(ptm_atoms):
         node_idxs = ptm_atoms[-1]  # The anchors
-        return sorted(molecule.nodes[idx]['resid'] for idx in node_idxs)
+        return sorted(residue_of(idx) for idx in node_idxs)
 
     ptm_atoms = sorted(ptm_atoms, key=key_func)
 
     resid_to_idxs = defaultdict(list)
     for n_idx in molecule:
-        residx = molecule.nodes[n_idx]['resid']
+        residx = residue_of(n_idx)
         resid_to_idxs[residx].append(n_idx)
     resid_to_idxs = dict(resid_to_idxs)
 
